@@ -247,7 +247,10 @@ def check_segmentation_taint(ck, prog, config, clause, end_names, hash_update='b
             branches = [b for b in (s.then, s.els) if b is not None]
             decides = any(_has_call(b, end_names) for b in branches) or \
                 any(_jumps(b) and not _only_error_return(b) for b in branches)
-            if decides and not all(_only_error_return(b) for b in branches):
+            # a test of a call's result is an error check (of the compressor, of the hash window), not a chunking
+            # decision, however the error path is spelled (return, or goto the end of a helper expanded in place)
+            tests_call = any(n.k == 'call' for n in walk(s.e))
+            if decides and not tests_call and not all(_only_error_return(b) for b in branches):
                 conds.append(s.e)
             visit(s.then, stack)
             visit(s.els, stack)
